@@ -4262,7 +4262,7 @@ void FPProc::LineIntegral(int inttype, CComplex *z)
                 {
                     flag=false;
                     for(j=0; j<3; j++)
-                        for(m=0; m<NumList[meshelem[elm].p[j]]; m++)
+                        for(m=0; j<3 && m<NumList[meshelem[elm].p[j]]; m++)
                         {
                             elm=ConList[meshelem[elm].p[j]][m];
                             if (InTriangleTest(pt.re,pt.im,elm)==true)
@@ -4344,7 +4344,7 @@ void FPProc::LineIntegral(int inttype, CComplex *z)
                 {
                     flag=false;
                     for(j=0; j<3; j++)
-                        for(m=0; m<NumList[meshelem[elm].p[j]]; m++)
+                        for(m=0; j<3 && m<NumList[meshelem[elm].p[j]]; m++)
                         {
                             elm=ConList[meshelem[elm].p[j]][m];
                             if (InTriangleTest(pt.re,pt.im,elm)==true)
@@ -4445,7 +4445,7 @@ void FPProc::LineIntegral(int inttype, CComplex *z)
                 {
                     flag=false;
                     for(j=0; j<3; j++)
-                        for(m=0; m<NumList[meshelem[elm].p[j]]; m++)
+                        for(m=0; j<3 && m<NumList[meshelem[elm].p[j]]; m++)
                         {
                             elm=ConList[meshelem[elm].p[j]][m];
                             if (InTriangleTest(pt.re,pt.im,elm)==true)
